@@ -33,6 +33,7 @@ import (
 
 type vcGate struct {
 	isolated atomic.Bool  // nothing gets in or out
+	deaf     atomic.Bool  // what this node sends is delivered, what is sent to it is lost
 	delay    atomic.Int64 // every write of this node is held this long (ns)
 }
 
@@ -60,7 +61,7 @@ func (c *gatedConn) cut() bool {
 
 func (c *gatedConn) Read(b []byte) (int, error) {
 	n, err := c.Conn.Read(b)
-	if c.cut() {
+	if c.cut() || c.local.deaf.Load() {
 		c.Conn.Close()
 		return 0, errSevered
 	}
@@ -116,7 +117,12 @@ type c02Gated struct {
 	gates map[*vcNode]*vcGate
 }
 
-func c02NewGated(t *testing.T) *c02Gated {
+func c02NewGated(t *testing.T) *c02Gated { return c02NewGatedLease(t, false) }
+
+// longLease0: the last node (joined, not the bootstrap node, so that start-up is not slowed down) is given an 8 s heartbeat/election/leader-lease timeout (rqlited's
+// -raft-timeout, -raft-election-timeout, -raft-leader-lease-timeout), so that as a leader that has lost
+// contact it is deposed by its successor's first message, not by its own lease running out.
+func c02NewGatedLease(t *testing.T, longLease0 bool) *c02Gated {
 	for attempt := 0; attempt < 3; attempt++ {
 		reg := &vcGateReg{byAddr: map[string]*vcGate{}}
 		g := &c02Gated{c: &vCluster{t: t}, gates: map[*vcNode]*vcGate{}}
@@ -132,6 +138,9 @@ func c02NewGated(t *testing.T) *c02Gated {
 			reg.byAddr[ln.Addr().String()] = gate
 			reg.mu.Unlock()
 			s := New(&Config{DBConf: NewDBConfig(), Dir: t.TempDir(), ID: fmt.Sprintf("g%d", i)}, &gatedLayer{ln: ln, g: gate, reg: reg})
+			if s != nil && i == 2 && longLease0 {
+				s.HeartbeatTimeout, s.ElectionTimeout, s.LeaderLeaseTimeout = 8*time.Second, 8*time.Second, 8*time.Second
+			}
 			if s == nil || s.Open() != nil {
 				ok = false
 				break
@@ -159,7 +168,7 @@ func c02NewGated(t *testing.T) *c02Gated {
 		}
 		if ok {
 			if ld := g.c.leader(10 * time.Second); ld != nil {
-				if vcExec(ld.s, "CREATE TABLE big (x INTEGER)", "INSERT INTO big(x) VALUES(0)") == nil {
+				if vcExec(ld.s, "CREATE TABLE big (x INTEGER)", "INSERT INTO big(x) VALUES(0)", "CREATE TABLE seq (tag INTEGER)") == nil {
 					return g
 				}
 			}
@@ -172,6 +181,7 @@ func c02NewGated(t *testing.T) *c02Gated {
 func (g *c02Gated) heal() {
 	for _, gt := range g.gates {
 		gt.isolated.Store(false)
+		gt.deaf.Store(false)
 		gt.delay.Store(0)
 	}
 }
